@@ -112,6 +112,13 @@ typedef struct {
     uint32_t intern_capacity;
 } VmHeap;
 
+#ifdef NANOLANG_VERIF
+/* Verification hooks (compiled only with -DNANOLANG_VERIF): called after a heap
+ * object has been allocated and just before one is freed. */
+extern void (*vm_verif_alloc_hook)(void *obj, uint8_t tag);
+extern void (*vm_verif_free_hook)(void *obj, uint8_t tag);
+#endif
+
 /* ========================================================================
  * Heap API
  * ======================================================================== */
